@@ -88,6 +88,33 @@ claim(
     "DESIGN.md §6 C20",
 )
 
+
+claim(
+    "C01", "model_checking",
+    "One z3 query over ALL token sequences of up to N tokens (N=13 quick, 19 thorough) and all their spans decides that the live grammar (rules, order, aliases, expand1/filter flags read from the compiled Lark object) "
+    "puts the weakest-binding connective at minimal bracket depth at the root of every (sub)expression under Lark's ambiguity-resolution contract; lexical lemmas (operator spellings, whitespace, bracket inlining) on the live terminals; "
+    "the contract is validated on solver-chosen mixed sequences through the real parser; CrossHair drives ~2600 selector-built strings through the real parser and compares the grouping with an independent precedence parser.",
+    "Trusted: z3; the resolution-contract model of lark/parsers/earley_forest.py (validated each run); token-level abstraction of the Earley dynamic lexer. Bound: N tokens.",
+    "grammar-to-SMT (CYK + label model over a symbolic token sequence) + z3 regex lemmas; CrossHair on the real parser as bounded cross-check",
+    "DESIGN.md §6 C01",
+)
+claim(
+    "C02", "model_checking",
+    "Bounded language equality of the live condition grammar with an independently written recogniser of the documented language: one z3 query over all token sequences <= N (12 quick / 18 thorough); "
+    "unbounded z3 regular-expression lemmas per terminal class; exception plumbing of the four entry points for every behaviour of a nondeterministic Lark stub (CrossHair); assembled well-formed/malformed/garbage strings through the real parsers.",
+    XH_NOTE + "Lark.parse raises only UnexpectedEOF/UnexpectedCharacters/TypeError on malformed input (the stub's range). AHB grammar's own language only via (b)/(c).",
+    "grammar-to-SMT language equality + z3 regex equality + CrossHair with nondeterministic parser stub",
+    "DESIGN.md §6 C02",
+)
+claim(
+    "C08", "model_checking",
+    "Step lemma with fully symbolic operands (bool, Optional[str]) on the real FormatConstraintTransformer callbacks: Boolean value always; error message iff unfulfilled under the proviso; leaf lemma on the real FcEvaluator.evaluate_single_format_constraint; "
+    "glue: real format_constraint_evaluation on all expressions up to 3 (4) keys with a symbolic truth assignment vs. the Boolean fold of the real parse tree, with and without error messages on the single constraints.",
+    XH_NOTE,
+    "CrossHair symbolic execution with symbolic bool / Optional[str] operands",
+    "DESIGN.md §6 C08",
+)
+
 ALL = [f"C{n:02d}" for n in range(1, 21)]
 manifest = {
     "version": 1,
@@ -102,6 +129,7 @@ manifest = {
     "engines": [
         {"name": "XH", "path": "vf/xh.py", "kind_free_text": "CrossHair 0.0.110 symbolic execution of the real ahbicht functions (z3 inside), per condition, 'Confirmed over all paths' only", "serves_properties": sorted(CHECKS)},
         {"name": "PZ", "path": "vf/pyz3.py", "kind_free_text": "Python-ast -> z3 translator for loop-free kernels, paths enumerated by solver feasibility", "serves_properties": [p for p in ("C03", "C05", "C13", "C18", "C20") if p in CHECKS]},
+        {"name": "GS", "path": "vf/grammar_smt.py", "kind_free_text": "live Lark grammar -> CYK/label tables over a symbolic token sequence (z3); vf/sre2z3.py: terminal regexes -> z3 RE", "serves_properties": [p for p in ("C01", "C02", "C07", "C09") if p in CHECKS]},
         {"name": "TM", "path": "vf/timemodel.py", "kind_free_text": "z3 model of civil time with the live pytz transition table", "serves_properties": [p for p in ("C20",) if p in CHECKS]},
         {"name": "DL", "path": "vf/detloop.py", "kind_free_text": "clock-free deterministic asyncio loop executed symbolically by CrossHair", "serves_properties": [p for p in ("C04", "C05", "C06", "C07", "C08", "C09", "C10", "C12", "C13", "C14", "C15", "C16", "C17") if p in CHECKS]},
     ],
